@@ -65,6 +65,26 @@ for with_c, kls in ((True, 'LTI'), (False, 'LTI'), (True, 'LTV'), (False, 'LTV')
     mk()
 
 
+@obligation('C15.LTI.size_one_axes', functions=[f'{DYN}:LTI.state_transition', f'{DYN}:LTI.observation', 'pypose.function.linalg:bmv'], max_paths=8)
+def lti_size_one(env):
+    """systems with an axis of size one - ONE state, ONE output, a batch of ONE: the batched equations hold per batch item and the results keep
+    their documented shapes (batch axes, then the state / output axis) - a squeeze that is not told which axis to drop goes wrong exactly here"""
+    dyn = env.load(DYN); la = env.load('pypose.function.linalg'); T = env.T
+    def stackm(name, B, r, c): return T.stack([M(env, f'{name}{b}_', r, c) for b in range(B)], 0)
+    def stackv(name, B, n): return T.stack([env.vec(f'{name}{b}_', n) for b in range(B)], 0)
+    for tag, B, n, q in (('batch of 2, one state, one output', 2, 1, 1), ('batch of 2, two states, one output', 2, 2, 1), ('batch of 1, two states', 1, 2, 2)):
+        k = tag.split(',')[0][-1] + str(n) + str(q)
+        A_, B_, C_, D_ = stackm('A' + k, B, n, n), stackm('B' + k, B, n, 1), stackm('C' + k, B, q, n), stackm('D' + k, B, q, 1)
+        c1, c2 = stackv('c' + k, B, n), stackv('e' + k, B, q)
+        x, u = stackv('x' + k, B, n), stackv('u' + k, B, 1)
+        z, y = dyn.LTI(A_, B_, C_, D_, c1, c2)(x, u)
+        ez = T.stack([A_[b] @ x[b] + B_[b] @ u[b] + c1[b] for b in range(B)], 0); ey = T.stack([C_[b] @ x[b] + D_[b] @ u[b] + c2[b] for b in range(B)], 0)
+        env.holds(f'{tag}: shapes are (batch, states) and (batch, outputs)', tuple(z.shape) == (B, n) and tuple(y.shape) == (B, q))
+        if tuple(z.shape) == (B, n) and tuple(y.shape) == (B, q):
+            env.eq(f'{tag}: next state per batch item', z, ez); env.eq(f'{tag}: observation per batch item', y, ey)
+        env.holds(f'{tag}: bmv keeps the batch axis', tuple(la.bmv(A_, x).shape) == (B, n))
+
+
 @obligation('C15.System.time', functions=[f'{DYN}:System.reset', f'{DYN}:System.systime', f'{DYN}:System.forward_hook', f'{DYN}:LTV.set_refpoint'])
 def time_(env):
     """per-operation contracts from a symbolic time value t"""
@@ -236,6 +256,12 @@ def nls_family(env):
         z0 = T.tensor(0) if env.sym else T.tensor(0., dtype=xs.dtype)
         env.eq(f't* = 0 given as a {form}, clock at 3: affine model reproduces f(x*, u*, 0)', s2.A @ xs + s2.B @ us + s2.c1, f(xs, us, z0))
         env.eq(f't* = 0 given as a {form}, clock at 3: affine model reproduces g(x*, u*, 0)', s2.C @ xs + s2.D @ us + s2.c2, g(xs, us, z0))
+    # a FRACTIONAL reference time (t* = step * dt, as LQR and the filters pass it) is used as given, not truncated to the integer clock
+    half = T.tensor(Q(5, 2)) if env.sym else T.tensor(2.5, dtype=xs.dtype)
+    s3 = Sys(); s3.systime = 1
+    s3.set_refpoint(xs, us, half)
+    env.eq('t* = 5/2: affine model reproduces f(x*, u*, 5/2)', s3.A @ xs + s3.B @ us + s3.c1, f(xs, us, half))
+    env.eq('t* = 5/2: affine model reproduces g(x*, u*, 5/2)', s3.C @ xs + s3.D @ us + s3.c2, g(xs, us, half))
 
 
 @bounded('C15.NLS.scaling', functions=[f'{DYN}:NLS.A', f'{DYN}:NLS.B', f'{DYN}:NLS.C', f'{DYN}:NLS.D', f'{DYN}:NLS.set_refpoint'])
@@ -273,6 +299,33 @@ def nls_scaling(rng, tier):
     for f_ in fails: uniq.setdefault((f_['clause'], f_['signature']), f_)
     return dict(evaluations=evals, distinct_nontrivial=evals, rule='random bilinear/quadratic 2-state systems with row scales 1e9/1e-8 (float64) and 1e3/1e-5 (float32)',
                 bound=f'{N} systems per dtype', failures=list(uniq.values())[:6], samples=samples)
+
+
+@bounded('C15.clock_range', functions=[f'{DYN}:System.__init__', f'{DYN}:System.systime', f'{DYN}:System.forward_hook', f'{DYN}:System.reset'])
+def clock_range(rng, tier):
+    """real code: the step counter holds every step count a 64-bit counter holds (millisecond stamps, very long runs): assignment, stepping
+    and reset around 2^31 and 2^40 keep the exact value (the symbolic contracts treat machine integers as mathematical integers)"""
+    import torch, pypose as pp
+    fails = []; evals = 0
+    d = torch.float64
+    A_ = torch.eye(2, dtype=d); B_ = torch.zeros(2, 1, dtype=d); C_ = torch.eye(2, dtype=d); D_ = torch.zeros(2, 1, dtype=d)
+    for big in (2 ** 31 - 1, 2 ** 31, 2 ** 31 + 5, 2 ** 40 + 3):
+        for how in ('assign int', 'assign tensor', 'reset'):
+            s_ = pp.module.LTI(A_, B_, C_, D_)
+            try:
+                if how == 'assign int': s_.systime = big
+                elif how == 'assign tensor': s_.systime = torch.tensor(big, dtype=torch.int64)
+                else: s_.reset(big)
+                evals += 1
+                if int(s_.systime) != big:
+                    fails.append(dict(clause='clock_keeps_large_step_counts', signature=f'{how}/{big}', got=int(s_.systime))); continue
+                s_(torch.zeros(2, dtype=d), torch.zeros(1, dtype=d))
+                if int(s_.systime) != big + 1:
+                    fails.append(dict(clause='clock_keeps_large_step_counts', signature=f'step after {how}/{big}', got=int(s_.systime)))
+            except Exception as e:
+                fails.append(dict(clause='clock_raises', signature=f'{how}/{big}', error=f'{type(e).__name__}: {e}'[:120]))
+    return dict(evaluations=evals, distinct_nontrivial=evals, rule='step counts 2^31-1, 2^31, 2^31+5, 2^40+3 by assignment (int / tensor) and reset, then one step',
+                bound='4 values x 3 ways', failures=fails[:6], samples=[])
 
 
 @obligation('C15.canary.observation_after_transition', functions=[f'{DYN}:LTI.observation'], canary=True)
